@@ -811,10 +811,12 @@ class C05(Prop):
             "and end of packet), plus uncompress of the canonical output again (stability). Expected output = the canonical pointer-free "
             "encoding computed by the independent reference decoder/encoder, expected offset = the same boundary in that encoding. "
             "Non-trivial: packet contains at least one compression pointer; distinct = distinct (packet, boundary).")
-    strength = ("proved: uncompress never reaches a Panic site of the model on a packet the parser accepts as far as the section walks are "
-                "concerned (via C03's walk theorems) and its output begins with the input's 12-byte header (C05_header_kept); "
-                "C05_full_statement (output = encode_plain of the decoded message, offset translation) is validated by the correspondence and "
-                "by exact comparison with the independent canonical encoder on every boundary of every generated packet.")
+    strength = ("proved (unbounded, every accepted packet): uncompress returns the 12 header bytes followed by the question and every record of "
+                "the declarative reading of the packet re-encoded without compression pointers - owner names and the names inside NS/CNAME/"
+                "PTR/MX/SOA data label by label, type/class/TTL as read, data length recomputed, opaque data byte for byte, in order; no "
+                "Panic outcome (C05_uncompress_is_plain_encoding; also C05_header_kept, C05_name_copy_appends). PARTIAL: that the output is "
+                "accepted again and is a fixed point, and the translation of record boundaries other than offset 12, are decided each run "
+                "by the correspondence and by exact comparison with the independent canonical encoder at every boundary of every packet.")
     assumptions = ["bytes < 256", "the reference offset is a record boundary (documented precondition of uncompress_with_previous_offset)"]
 
     def gen(self, rng, tier):
